@@ -24,14 +24,16 @@ RULE_SEQ = ("one evaluation = one seeded plan (swarm configuration + operation l
 
 check("C12", "exploration",
       [dict(world="lists", mode=12, variants=V_SEQ, quick=80000, thorough=4000000),
-       dict(world="lists", mode=112, variants={"rel": 1.0}, quick=12, thorough=400)],
+       dict(world="lists", mode=112, variants={"rel": 1.0}, quick=12, thorough=400),
+       dict(world="lists", mode=122, variants={"rel": 1.0}, quick=0, thorough=24, min_mem_gib=24)],      # 2^23 ... 2^26 elements: six sizes x four key patterns, up to 160 s a run
       RULE_SEQ, ["src/dlist.c", "include/cstl/dlist.h"],
       required_probes=["d_reverse_len0to5", "d_reverse_odd", "d_reverse_even", "d_swap_with_empty", "d_foreach_self_remove",
                        "d_foreach_cancel", "d_concat_empty_src", "d_concat_empty_dst", "d_pop_empty", "d_find_absent", "d_swap_different_offsets", "comparator_reenters_library", "huge_sort", "huge_sort_2^20", "d_find_by_bare_key"],
       assumptions=["find hands the comparison function (sought object, element) - as every find in the library does; half of the finds search by a bare key object, the way callers avoid building a dummy element, and the comparison function checks which argument is which"])
 check("C13", "exploration",
       [dict(world="lists", mode=13, variants=V_SEQ, quick=80000, thorough=4000000),
-       dict(world="lists", mode=113, variants={"rel": 1.0}, quick=12, thorough=400)],
+       dict(world="lists", mode=113, variants={"rel": 1.0}, quick=12, thorough=400),
+       dict(world="lists", mode=123, variants={"rel": 1.0}, quick=0, thorough=24, min_mem_gib=24)],
       RULE_SEQ, ["src/slist.c", "include/cstl/slist.h"],
       required_probes=["s_pop_empty", "s_erase_last", "s_insert_after_tail", "s_swap_with_empty", "s_concat_empty_src",
                        "s_concat_empty_dst", "s_reverse", "s_sort", "s_foreach_cancel", "s_swap_different_offsets", "huge_sort", "huge_sort_2^20"])
@@ -71,7 +73,8 @@ mtext("C13",
 
 V_TREES = {"rel": 0.8, "asan": 0.1, "dbg": 0.1}
 check("C01", "exploration",
-      [dict(world="trees", mode=1, variants=V_TREES, quick=60000, thorough=6000000)],
+      [dict(world="trees", mode=1, variants=V_TREES, quick=60000, thorough=6000000),
+       dict(world="trees", mode=120, variants={"rel": 1.0}, quick=0, thorough=12)],      # 2^32 modifications in a row: about 100 s per run; binary / red-black x three counts x two kinds of round
       RULE_SEQ, ["src/bintree.c", "src/rbtree.c", "include/cstl/bintree.h", "include/cstl/rbtree.h"],
       required_probes=["insert_hinted", "erase_leaf", "erase_one_child", "erase_two_children_succ_is_child",
                        "erase_two_children_succ_deeper", "erase_root", "erase_absent", "foreach_cancel", "find_absent", "find_present"])
